@@ -718,6 +718,12 @@ class Gen(object):
     # cardinalities
     def g_set_card(self):
         x = self.pick(self.nodes())
+        # state-directed: now and then the object is a copy a resolved link brought in - a setting
+        # on it is what tells the copy from its origin
+        brought = [c for s_ in self.secs() if s_.is_merged and s_.link is not None
+                   for c in list(s_.sections) + list(s_.properties)]
+        if brought and self.chance(0.3):
+            x = self.pick(brought)
         if x is None:
             return None
         which = "val" if kind_of(x) == "prop" else self.pick(["sec", "prop"])
@@ -940,8 +946,12 @@ class Gen(object):
         d = self.pick(self._valid_docs())
         if d is None or not self.room(len(self.U.subtree(d))):
             return None
-        return {"op": "restart", "d": self.ref(d), "backend": self.pick(list(self.p.backends)),
-                "via": self.pick(["file", "file", "string"])}
+        op = {"op": "restart", "d": self.ref(d), "backend": self.pick(list(self.p.backends)),
+              "via": self.pick(["file", "file", "string"])}
+        if any(kind_of(o) == "sec" and o.is_merged and o.link is not None
+               for o in self.U.subtree(d)) and self.chance(0.6):
+            op["clean"] = True      # the way a document with resolved links is saved: clean first
+        return op
 
     def g_advance(self):
         return {"op": "advance", "s": self.pick([1, 60, 86400, 200000])}
